@@ -64,6 +64,7 @@ func runC20(c *Ctx) {
 	maxSlotsF := p.Field("sonic", contT, "maxSlots")
 	lengthF := p.Field("sonic", "Slot", "Length")
 	indexF := p.Field("sonic", "Slot", "Index")
+	seqF := p.Field("sonic", "sequencedSlot", "seq")
 	sm := func(n string) *ssa.Function { return p.Method("sonic", seqT, n) }
 	om := func(n string) *ssa.Function { return p.Method("sonic", offT, n) }
 	cm := func(n string) *ssa.Function { return p.Method("sonic", contT, n) }
@@ -585,7 +586,7 @@ func runC20(c *Ctx) {
 							}
 						}
 						_ = y
-						if op == token.GEQ && loadedField(x) != nil && loadedField(x).Name() == "seq" {
+						if op == token.GEQ && loadedField(x) != nil && loadedField(x) == seqF {
 							lower = true
 						}
 					}
@@ -600,7 +601,7 @@ func runC20(c *Ctx) {
 				if len(r.Results) == 2 && isConstBool(r.Results[1], true) {
 					for _, l := range guardsOf(r.Block()) {
 						if op, x, y, ok := l.cmp(); ok && op == token.EQL {
-							if (loadedField(x) != nil && loadedField(x).Name() == "seq") || (loadedField(y) != nil && loadedField(y).Name() == "seq") {
+							if (loadedField(x) != nil && loadedField(x) == seqF) || (loadedField(y) != nil && loadedField(y) == seqF) {
 								exact = true
 							}
 						}
